@@ -47,6 +47,7 @@ def run(R, ctx):
     c01.index_table(_As(R, 'R06.6'), ctx)
     c01.order_rules(_As(R, 'R06.6'), ctx)
     listing_predicates(R, ctx)
+    timestamp_parse_total(R, ctx, rule='R06.7')
     family_predicate_proxy(R, ctx, 'R06.8', 'the listing that start index, restart numbers and the latest file are taken from recognises exactly the family (shared with R14.2)')
 
 class _As:
@@ -460,22 +461,60 @@ def collision_table(R, ctx):
         raise CheckError(f"collision table has only {n} rows")
 
 
-def listing_predicates(R, ctx):
+def listing_predicates(R, ctx, rule='R06.7', filter_clause=True):
     f = ctx.f
     # every list_of_files / list_of_log_and_compressed_files call on behalf of a naming scheme: which filter?
     b = ctx.body(r'::timestamps::latest_timestamp_file$')
     p = ctx.ip.prov(b.path)
-    for bb, t in b.calls():
-        if callee_name(t).endswith('FileSpec::list_of_files'):
-            txt = ' '.join(map(str, p.op_roots(t['args'][1])))
-            pr = ctx.f.bodies.get(b.path + '::promoted[0]')
+    nsites = 0
+    for x, bb, t in calls_with_closures(f, b):
+        if not callee_name(t).endswith('FileSpec::list_of_files'):
+            continue
+        nsites += 1
+        px = ctx.ip.prov(x.path)
+        if filter_clause:
             agg = [s['rv'].get('variant') for blk in b.blocks for s in blk['stmts'] if s['k'] == 'assign' and s['rv']['k'] == 'agg' and 'InfixFilter' in s['rv'].get('adt', '')]
-            promoted = [s['rv'].get('variant') for x in f.bodies.values() if x.owner == b.path and x.promoted is not None for blk in x.blocks for s in blk['stmts']
+            promoted = [s['rv'].get('variant') for y in f.bodies.values() if y.owner == b.path and y.promoted is not None for blk in y.blocks for s in blk['stmts']
                         if s['k'] == 'assign' and s['rv']['k'] == 'agg' and 'InfixFilter' in s['rv'].get('adt', '')]
             uses_ts = 'Timstmps' in agg + promoted
-            R.check('R06.7', f"{b.path}|filter", uses_ts, "lists with Timstmps(format)",
+            R.check(rule, f"{b.path}|filter", uses_ts, "lists with Timstmps(format)",
                     "latest_timestamp_file lists the earlier files with the constant number filter (InfixFilter::Numbrs) instead of the timestamp filter of the configured format: "
-                    "with a custom format not starting with `r`+digit and append, the earlier file is never continued", where=b.loc(bb))
+                    "with a custom format not starting with `r`+digit and append, the earlier file is never continued", where=x.loc(bb))
+        # the suffix of the family is part of the predicate: the listing that decides which file a restart continues is asked for the configured
+        # suffix (a `None` skips the suffix test: a foreign `app_r2099-01-01_00-00-00.txt` would set the timestamp the restarted logger continues with)
+        roots = {r_ for (_q, r_) in ctx.ip.expand(x.path, px.op_roots(t['args'][2]))} | set(px.op_roots(t['args'][2]))
+        from_cfg = any(r_[0] in ('call', 'via') and re.search(r'FileSpec::get_suffix$|FileLogWriterConfig::suffix$', r_[1]) for r_ in roots)
+        R.check(rule, f"{b.path}|suffix", from_cfg, "the listing is asked for the configured suffix",
+                f"latest_timestamp_file lists without the configured suffix ({sorted(map(str, roots))[:3]}): files of any extension with a timestamp-like infix are taken for earlier "
+                "log files and decide which file a restart with append continues", where=x.loc(bb))
+    if nsites < 1:
+        raise CheckError(f"{rule}: the listing in latest_timestamp_file was not found")
+
+
+def timestamp_parse_total(R, ctx, rule='R14.2'):
+    """the reader of file-name timestamps accepts every infix the writer can produce: the naive time parsed from the name is mapped to a local time with a
+    TOTAL choice for ambiguous local times (`earliest` / `latest`).  `single()` (or an unwrap of it) rejects every time in the hour that repeats when
+    daylight saving ends: files rotated in that hour fail the family predicate - cleanup never counts, compresses or removes them, a restart does not
+    continue them."""
+    f = ctx.f
+    b = ctx.body(r'::timestamps::timestamp_from_ts_infix$')
+    picks = []
+    for x, bb, t in calls_with_closures(f, b):
+        m = re.search(r'LocalResult::<T>::(single|earliest|latest|unwrap)$', callee_name(t))
+        if m:
+            picks.append((m.group(1), x.loc(bb)))
+    for q in ctx.cg.reachable([b.path], spawn=False):
+        if q in f.bodies and q != b.path and not q.startswith(b.path + '::'):
+            for bb, t in f.bodies[q].calls():
+                m = re.search(r'LocalResult::<T>::(single|earliest|latest|unwrap)$', callee_name(t))
+                if m:
+                    picks.append((m.group(1), f.bodies[q].loc(bb)))
+    if not picks:
+        raise CheckError(f"{rule}: conversion of the parsed file-name timestamp to local time not recognised in timestamp_from_ts_infix")
+    partial = [p_ for p_ in picks if p_[0] in ('single', 'unwrap')]
+    R.check(rule, f"{b.path}|ambiguous-local-times-accepted", not partial, f"{len(picks)} conversions, all with earliest()/latest()",
+            f"timestamp_from_ts_infix maps the parsed time to local time with LocalResult::{partial[0][0] if partial else ''}(): a timestamp inside the hour that repeats when daylight "
+            "saving ends is rejected, so files rotated in that hour are not recognised as log files (never cleaned up, never continued)", where=partial[0][1] if partial else b.loc())
 
 
 def format_agreement(R, ctx, rule='R06.3'):
